@@ -35,6 +35,14 @@ func EncodeMember(payload []byte, level int) []byte {
 	binary.LittleEndian.PutUint32(tr[4:], uint32(len(payload)))
 	b.Write(tr[:])
 	out := b.Bytes()
+	if len(out) > 65536 {
+		// a member is at most 64 KiB long (BSIZE is 16 bits): a payload that does not fit at this
+		// level is compressed harder; one that does not fit at all cannot be a member
+		if level != 6 {
+			return EncodeMember(payload, 6)
+		}
+		panic("bgz: payload does not fit in one member")
+	}
 	binary.LittleEndian.PutUint16(out[16:], uint16(len(out)-1))
 	return out
 }
